@@ -265,12 +265,29 @@ def run_impl(case):
                 f = eng.compute_force_point(np.array(p), nodes[g][0], nodes[g][1], exclude=[nodes[h][1] for h in excl])
                 isinf = bool(np.isscalar(f) and f == np.inf)
                 rows = []
+                box__ = np.asarray(eng.boxsize, dtype=float)
                 for dist, ref, params in contrib:
-                    cand = [h for h, q in enumerate(shadow) if q is not None and q == ref]
+                    # the neighbour is handed over as its position or as a periodic image of it
+                    cand = [h for h, q in enumerate(shadow) if q is not None
+                            and np.allclose((np.array(q) - np.array(ref)) / box__, np.round((np.array(q) - np.array(ref)) / box__), atol=1e-9)]
                     rows.append(cand[0] if len(cand) == 1 else -1)
                 binf, bhits, ball = brute_force(eng, shadow, p, excl, cut)
                 obs.append(('force', 'inf' if isinf else sorted(rows)))
                 margin = [d for _, d in ball if abs(d - cut) < 1e-9 or abs(d - 0.1) < 1e-12]
+                if not margin and not isinf and not binf:
+                    # value of the force: sum over the contributors of -dV/dr along the minimum-image unit vector
+                    box_ = np.asarray(eng.boxsize, dtype=float)
+                    want_f = np.zeros(3)
+                    for h in bhits:
+                        dv = np.array(p) - np.array(shadow[h])
+                        dv = dv - box_ * np.round(dv / box_)
+                        r_ = float(np.linalg.norm(dv))
+                        sig_, eps_ = eng.interaction_matrix[frozenset([eng.atypes[eng.nodes_to_gndx[(nodes[g][0], nodes[g][1])]], eng.atypes[h]])]
+                        want_f += 24 * eps_ / r_ * (2 * (sig_ / r_) ** 12 - (sig_ / r_) ** 6) * dv / r_
+                    got_f = np.zeros(3) if np.isscalar(f) else np.asarray(f, dtype=float)
+                    if not np.allclose(got_f, want_f, rtol=1e-7, atol=1e-7 * (1 + np.abs(want_f).max())):
+                        bad.append((i, f"force on point {p} is {got_f.tolist()}, the sum of -dV/dr along the minimum-image vectors of the "
+                                       f"contributors {bhits} is {want_f.tolist()}"))
                 if not margin:
                     if isinf != binf:
                         bad.append((i, f"force query at {p}: infinite={isinf} but brute force over the rows says {binf}"))
